@@ -129,10 +129,46 @@ Definition pyval_eqb (a b : pyval) : bool :=
   | PTy x, PTy y => ty_eqb x y
   | _, _ => false
   end.
+(* _constants_equal: whether two constants of the same sort denote the same value (None: not
+   decided).  Two array values are equal iff they agree at every index either of them assigns
+   and - when some index is left to the default by both: always over an infinite index sort,
+   over Bool / BV(w) unless the assigned indices cover the sort - their defaults agree.
+   [fuel] bounds the nesting of array sorts (the elements are compared by the same procedure). *)
+Definition arr_get (k : term) (ps : list (term * term)) (d : term) : term :=
+  match assoc_get k ps with Some v => v | None => d end.
+Definition idx_covered (it : ty) (n : Z) : bool :=
+  match it with TBool => 2 <=? n | TBV w => Z.pow 2 w <=? n | _ => false end.
+Definition union_keys (a b : list term) : list term :=
+  a ++ filter (fun k => negb (existsb (term_eqb k) a)) b.
+(* `False in results`, else `None in results`, else all True *)
+Definition combine_results (rs : list (option bool)) : option bool :=
+  if existsb (fun r => match r with Some false => true | _ => false end) rs then Some false
+  else if existsb (fun r => match r with None => true | _ => false end) rs then None
+  else Some true.
+Fixpoint const_eqb (fuel : nat) (l r : term) {struct fuel} : option bool :=
+  match fuel with
+  | O => None
+  | S f =>
+      if term_eqb l r then Some true
+      else if negb (is_constant l) || negb (is_constant r) then None
+      else match l, r with
+           | T (OArrayValue it) (dl :: rl), T (OArrayValue _) (dr :: rr) =>
+               let pl := pairs_of rl in
+               let pr := pairs_of rr in
+               let keys := union_keys (map fst pl) (map fst pr) in
+               match combine_results (map (fun k => const_eqb f (arr_get k pl dl) (arr_get k pr dr)) keys) with
+               | Some true => if idx_covered it (zlen keys) then Some true else const_eqb f dl dr
+               | x => x
+               end
+           | T (OArrayValue _) _, _ | _, T (OArrayValue _) _ => None
+           | _, _ => match constant_value l, constant_value r with
+                     | Some a, Some b => Some (pyval_eqb a b)
+                     | _, _ => None
+                     end
+           end
+  end.
 (* walk_equals: constants other than array values are compared by value; identical nodes are
-   equal; two DISTINCT constant array values whose index sort is neither BV nor Bool and whose
-   elements are not arrays are different (such array values have a unique canonical form and
-   the index sort is infinite) *)
+   equal; two DISTINCT constant array values are compared extensionally (_constants_equal) *)
 Definition r_equals (sl sr : term) : option term :=
   if is_constant sl && is_constant sr && negb (is_array_value sl) && negb (is_array_value sr) then
     match constant_value sl, constant_value sr with
@@ -141,15 +177,9 @@ Definition r_equals (sl sr : term) : option term :=
     end
   else if term_eqb sl sr then Some TTrue
   else if is_constant sl && is_constant sr then
-    match sl with
-    | T (OArrayValue it) (d :: _) =>
-        match it, tc d with
-        | TBV _, _ | TBool, _ => Some (mk_equals sl sr)
-        | _, Some (TArr _ _) => Some (mk_equals sl sr)    (* elements are arrays: no unique constant form *)
-        | _, Some _ => Some TFalse
-        | _, None => None
-        end
-    | _ => None       (* array_value_index_type() / array_value_default() assert an array value *)
+    match const_eqb (S (tsize sl)) sl sr with
+    | Some b => Some (mk_bool b)
+    | None => None          (* cannot happen: the fuel bounds the nesting of the array sort *)
     end
   else Some (mk_equals sl sr).
 (* walk_ite *)
